@@ -87,6 +87,15 @@ CHECKS.update({
    design_ref="DESIGN.md §3 C20"),
 })
 
+CHECKS.update({
+ "C17": dict(
+   category="exploration",
+   text="The real http_forwarded_stream::into_forwarded on a mirror HTTP stream (request head with client version 1/2/3, scripted body source, recording responder, scripted client sink with acceptance quotas {0,1,7,inf} and writability delays) wired by the real DuplexPipe to a scripted origin that delivers its response in 0-3 cuts or byte-at-a-time: optional 100/103 prefix, statuses incl. 204/304/HEAD, bodies 0..5000 bytes framed by Content-Length / chunked (sizes 1..4096, extensions) / close-delimited, hop-by-hop headers. An independent HTTP/1.1 reference (httparse + own de-chunker) decides the expected forwarded request (line, Host, headers minus proxy-*, body framing) and the expected client-visible status / headers / body bytes / end-of-stream. Origins that break their own framing (bytes after the body, chunked+Content-Length, trailers) are judged for termination, panic and spin only. 60k (quick) / 5M (thorough) seeded cases, CPU-clock wedge watchdog.",
+   note="Trusted: the HTTP/1.1 reference in harness/src/props/c17.rs; scripted mirror endpoints. Known finding: HTTP/2-3 request bodies without Content-Length are forwarded unframed.",
+   technique="runtime monitoring: differential oracle (independent HTTP/1.1 reference) over the real translator + pipe under scripted segmentation and back-pressure",
+   design_ref="DESIGN.md §3 C17"),
+})
+
 NOT_YET = "check not built yet in this session (designed in DESIGN.md §3; harness work in progress)"
 
 def main():
